@@ -780,7 +780,7 @@ func mustFail(c *Case, o Op, ex fr.Exchange) bool {
 	hasDesc := map[string]bool{"push": true, "pushref": true, "fetch": true, "exists": true, "delete": true, "tag": true, "mount": true}[o.Kind]
 	digestRef := q.EP.Kind == "blob" || (q.EP.Kind == "man" && validDigest(q.EP.Arg))
 	orig := ex.R.Status
-	if f == "status" {
+	if f == "status" || f == "name-unknown" {
 		return true
 	}
 	if !ok2xx(orig) {
@@ -909,7 +909,12 @@ func execHistory(id string, c *Case) (nreq int) {
 		}
 		if hit != nil {
 			run.Count("corrupt:" + c.Cor.Field + ":" + o.Kind + ":" + hit.Q.M + ":" + hit.Q.EP.Kind)
-			if mustFail(c, o, *hit) && res.Err == nil {
+			// a 404 is an answer the protocol defines: Exists reports "not there" instead of failing
+			notFound := (c.Cor.Field == "name-unknown" || (c.Cor.Field == "status" && c.Cor.Arg == "404")) &&
+				((o.Kind == "exists" && res.Str == "bool:0") ||
+					// ... and a plain 404 on the referrers endpoint means "no Referrers API": tag schema
+					(o.Kind == "preds" && c.Cor.Field == "status" && hit.Q.EP.Kind == "refs"))
+			if mustFail(c, o, *hit) && res.Err == nil && !notFound {
 				run.OracleFail(id, "corruption-accepted", fmt.Sprintf("op %d (%s): response to %s corrupted in %s, call returned %s", i, o.Kind,
 					fr.ShowReq(hit.Q), c.Cor.Field, res.Str), replayOf(line))
 			}
@@ -1863,7 +1868,7 @@ type corVariant struct{ Field, Arg string }
 
 func corVariants(c *Case) []corVariant {
 	return []corVariant{{"dig-other", sha([]byte("other0"))}, {"dig-other", c.Pool[len(c.Pool)-1].Digest}, {"dig-garbage", ""}, {"dig-drop", ""},
-		{"len-inc", ""}, {"len-drop", ""}, {"type-other", ""}, {"type-garbage", ""}, {"type-drop", ""}, {"status", "500"}, {"status", "204"}, {"loc-drop", ""}}
+		{"len-inc", ""}, {"len-drop", ""}, {"type-other", ""}, {"type-garbage", ""}, {"type-drop", ""}, {"status", "500"}, {"status", "204"}, {"status", "404"}, {"loc-drop", ""}, {"name-unknown", ""}}
 }
 
 // canonicalCase: one history that exercises every operation and every request shape.
@@ -1969,12 +1974,12 @@ func enumerateCorruptions() {
 		}
 	}
 	run.Extra["corruption_enumeration"] = map[string]any{"exhaustive": true, "profiles": len(profiles), "histories": hist, "corrupted_runs": runs,
-		"variants_per_exchange": 12, "distinct_field_op_method_endpoint": pairs,
+		"variants_per_exchange": 14, "distinct_field_op_method_endpoint": pairs,
 		"what": "canonical history with every operation and request shape; every exchange of it x every single-field corruption variant, per capability profile (thorough: all 32 profiles x referrers state unknown/supported)"}
 }
 
 var corruptFields = []string{"dig-other", "dig-garbage", "dig-drop", "len-inc", "len-drop", "type-other", "type-garbage",
-	"type-drop", "status", "status", "loc-drop"}
+	"type-drop", "status", "status", "loc-drop", "name-unknown"}
 
 func genSeek(r *common.Rand) *SeekCase {
 	n := r.Intn(40)
@@ -2148,7 +2153,7 @@ func main() {
 					cc.Cor.Arg = common.Pick(r, c.Pool).Digest
 				}
 			case "status":
-				cc.Cor.Arg = common.Pick(r, []string{"500", "204"})
+				cc.Cor.Arg = common.Pick(r, []string{"500", "204", "404", "403"})
 			}
 			execHistory(run.NewID(), &cc)
 		}
